@@ -26,7 +26,7 @@ def run(rep, tier, replay):
                                ("expand", [t for t in shapes.EXPAND_QUICK if t[0] in ("xq_garbage", "xq_w1")])], pol)
     opts = "{{}, {\"k\"}, {\"c\"}, {\"f\"}, {\"t\"}, {\"k\", \"f\"}, {\"c\", \"f\"}, {\"v\"}, {\"k\", \"v\"}, {\"f\", \"v\"}, {\"c\", \"v\"}}"
     defs = dict(Modes=sets(["compress", "decompress"]), OptSets=opts, Kinds=sets(["regular", "hardlink", "missing"]),
-                Suffixes=sets(["", ".bz2"]), Existing=sets(["none", "file"]), Contents=sets(["good", "bad"]), ModeBits=sets(["0644", "4755"]))
+                Suffixes=sets(["", ".bz2"]), Existing=sets(["none", "file"]), Contents=sets(["good", "bad"]), ModeBits=sets(["0644", "4755"]), ErrModes="{FALSE, TRUE}")
     behs, r = inproc.gen("FileOps", dict(MaxOperands=2), ["Export"], "fo18", defs=defs, timeout=1500, workers=8, xmx="12g")
     if behs is None:
         raise vlib.Infra("FileOps.tla failed: " + r.text[-1500:])
@@ -45,7 +45,7 @@ def run(rep, tier, replay):
         key = "/".join(e["outcome"] for e in sc["effects"])
         mix[key] = mix.get(key, 0) + 1
         if why:
-            rep.violation("%s -%s, operands %s: %s" % (sc["mode"], "".join(sorted(sc["opts"])) or "-",
+            rep.violation("%s -%s%s, operands %s: %s" % (sc["mode"], "".join(sorted(sc["opts"])) or "-", " 2>/dev/full" if sc.get("errfull") else "",
                                                        [(o["kind"], o["suffix"], o["existing"], o["content"]) for o in sc["ops"]], why),
                           dict(kind="fileops", cls="operand-list", scenario=sc, why=why))
             if len(rep.violations) >= 8:
